@@ -28,9 +28,9 @@ type SolveResult struct {
 }
 
 type solverSpec struct {
-	name string
-	bin  string
-	args func(timeoutS int) []string
+	name     string
+	bin      string
+	args     func(timeoutS int) []string
 	noLambda bool
 }
 
